@@ -2,6 +2,9 @@
 """Writes the outcome of tools/seedsweep.sh (seeded/RESULTS.md) into seeded/*/meta.json:
 detected_by_checks (space separated property ids) and reported_rule_instances."""
 import json, re, os
+# reported (by any property's check) by the checks as they stood when the seed arrived
+first_r3 = {"C01c", "C05c", "C06c", "C07c", "C08c", "C09c", "C12c", "C13c", "C15c", "C16c", "C17c", "C19c"}
+first_r4 = {"C01d", "C02d", "C03d", "C04d", "C05d", "C06d", "C07d", "C09d", "C10d", "C11d", "C12d", "C13d", "C16d", "C17d", "C18d", "C20d"}
 first_r2 = {"C02b", "C06b", "C07b", "C11b", "C13b", "C16b", "C17b", "C18b"}  # caught before any rule was added for round 2
 for line in open("/verif/seeded/RESULTS.md"):
     m = re.match(r"\| (C\d\d\w) \| (C\d\d) \| (.*?) \| (.*?) \|$", line.strip())
@@ -15,5 +18,9 @@ for line in open("/verif/seeded/RESULTS.md"):
     meta["reported_rule_instances"] = keys.strip()
     if meta.get("round") == 2:
         meta["detected_by_first_version_of_checks"] = seed in first_r2
+    if meta.get("round") == 3:
+        meta["detected_by_first_version_of_checks"] = seed in first_r3
+    if meta.get("round") == 4:
+        meta["detected_by_first_version_of_checks"] = seed in first_r4
     json.dump(meta, open(p, "w"), indent=1)
     print(seed, prop, props)
